@@ -422,6 +422,32 @@ def job_bodies(ctx, clsname):
         check_gravity(ctx, E, R, P, ekey, LATS, HS, 'WGS()')
 
 
+def job_bodies_interleaved(ctx, clsname):
+    """Two-phase history: ALL ellipsoid objects (every body of the constants table, plus WGS84 twins that differ in one parameter only)
+    are constructed first and queried only afterwards, in reverse order: an object must not be influenced by objects built after it."""
+    rg.selftest()
+    import ahrs.common.constants as K
+    C = _cls(clsname)
+    As, Fs, Gs, Ms, LATS, HS = _alph(ctx)
+    specs = []
+    for body in BODIES:
+        A = float(getattr(K, body + '_EQUATOR_RADIUS')); B = float(getattr(K, body + '_POLAR_RADIUS'))
+        GM = float(getattr(K, body + '_GM')); W = float(getattr(K, body + '_ROTATION'))
+        f = float(K.EARTH_FLATTENING) if body == 'EARTH' else (A - B) / A
+        specs.append((f'body={body}', A, f, GM, W))
+    a0, f0, gm0, w0 = 6378137.0, 1 / 298.257223563, 3.986004418e14, 7.292115e-5
+    specs += [('twin:w*2', a0, f0, gm0, 2 * w0), ('twin:w=0', a0, f0, gm0, 0.0), ('twin:f*3', a0, 3 * f0, gm0, w0), ('twin:GM/2', a0, f0, gm0 / 2, w0), ('twin:a*1.5', 1.5 * a0, f0, gm0, w0),
+              ('twin:base', a0, f0, gm0, w0)]
+    objs = [(nm, C(A_, f_, GM_, W_), rg.Ellipsoid(A_, f_, GM_, W_), f_) for nm, A_, f_, GM_, W_ in specs]        # phase 1: construct everything
+    for nm, E, R, f_ in reversed(objs):                                                                            # phase 2: query, last built first
+        ekey = f'{clsname} interleaved {nm} {fkey(f_)}'
+        P = check_constants(ctx, E, R, ekey, track=False)
+        check_gravity(ctx, E, R, P, ekey, LATS[::3], HS[:2], clsname + ':interleaved')
+        ctx.cls('interleaved-objects')
+        ctx.traces += 1
+    ctx.sample({'class': clsname, 'interleaved': [s_[0] for s_ in specs]})
+
+
 def job_formulas(ctx):
     """international_gravity / welmec_gravity on the latitude (x height) grid."""
     rg.selftest()
@@ -512,6 +538,8 @@ def run(ctx):
                     jobs.append(('job_lattice', (clsname, k, ia, ig)))
     jobs.append(('job_bodies', ('ReferenceEllipsoid',)))
     jobs.append(('job_bodies', ('WGS',)))
+    jobs.append(('job_bodies_interleaved', ('ReferenceEllipsoid',)))
+    jobs.append(('job_bodies_interleaved', ('WGS',)))
     jobs.append(('job_formulas', ()))
     core.run_jobs(ctx, __name__, jobs)
     ctx.notes['jitter_entries'] = ks
